@@ -15,13 +15,13 @@ From Coq Require Import ZArith Reals Lra List Floats.
 From OW Require Import Base.Arith Base.RInst Base.FInst Base.Mealy KernelProofs.Budget.
 From OW Require Import Kernels.C12Common Kernels.LumpedConstituent Kernels.Decay Kernels.InstreamFineSediment
   Kernels.InstreamCoarseSediment Kernels.InstreamParticulateNutrient Kernels.SedimentTrapping
-  Kernels.TrapAll Kernels.DissolvedDecay.
+  Kernels.TrapAll Kernels.DissolvedDecay Kernels.InstreamDissolvedNutrient.
 From OW Require KernelProofs.LumpedConstituent KernelProofs.Decay KernelProofs.InstreamFineSediment
   KernelProofs.InstreamCoarseSediment KernelProofs.InstreamParticulateNutrient KernelProofs.SedimentTrapping
-  KernelProofs.TrapAll KernelProofs.DissolvedDecay KernelProofs.C12Float.
+  KernelProofs.TrapAll KernelProofs.DissolvedDecay KernelProofs.InstreamDissolvedNutrient KernelProofs.C12Float.
 Import KernelProofs.LumpedConstituent KernelProofs.Decay KernelProofs.InstreamFineSediment
   KernelProofs.InstreamCoarseSediment KernelProofs.InstreamParticulateNutrient KernelProofs.SedimentTrapping
-  KernelProofs.TrapAll KernelProofs.DissolvedDecay KernelProofs.C12Float.
+  KernelProofs.TrapAll KernelProofs.DissolvedDecay KernelProofs.InstreamDissolvedNutrient KernelProofs.C12Float.
 Import ListNotations.
 Local Open Scope R_scope.
 
@@ -284,7 +284,120 @@ Theorem C12_decay_roundoff_negative_refuted : forall l : LibM,
 Proof. exact decay_roundoff_negative_refuted. Qed.
 Print Assumptions C12_decay_roundoff_negative_refuted.
 
-(** * 10. Non-vacuity *)
+(** * 10. The catalogue kernels (what is extracted and run against the Go code) are these runs *)
+Theorem C12_lumped_kernel_is_run : forall (w p dt s : R) (a b c d : list R),
+  @lumped_constituent_routing_kernel R RArith [w; p; dt] [s] [a; b; c; d] =
+  let r := run (@lumped_step R RArith p dt) s (lumped_rows a (Some b) c d) in
+  Some ([map lo_outflowLoad (snd r); map lo_pointSourceLoad (snd r)], [fst r]).
+Proof. exact lumped_kernel_unfold. Qed.
+
+Theorem C12_decay_kernel_is_run : forall (w h dt s : R) (a b c d e : list R),
+  @constituent_decay_kernel R RArith [w; h; dt] [s] [a; b; c; d; e] =
+  let r := run (@decay_step R RArith h dt) s (decay_rows a b c d e) in
+  Some ([map do_decayedLoad (snd r); map do_outflowLoad (snd r)], [fst r]).
+Proof. exact decay_kernel_unfold. Qed.
+
+Theorem C12_fine_kernel_main_is_run : forall (bff vf fpa lw ll ls bh pbh sbd mn vs vr dt c m : R) (a b l v q : list R),
+  1 / 100000000 < bff ->
+  @instream_fine_sediment_kernel R RArith [bff; vf; fpa; lw; ll; ls; bh; pbh; sbd; mn; vs; vr; dt] [c; m] [a; b; l; v; q] =
+  let p := mk_fine_params bff vf fpa lw ll ls bh pbh sbd mn vs vr dt in
+  let r := run (@fine_step R RArith p) (@fine_init_store R RArith p c, m) (fine_rows a b l v q) in
+  Some ([map fo_loadDownstream (snd r); map fo_loadToFloodplain (snd r); map fo_loadToChannelDeposition (snd r);
+         map fo_floodplainDepositionFraction (snd r); map fo_channelDepositionFraction (snd r)],
+        [fst (fst r); snd (fst r)]).
+Proof. exact fine_kernel_unfold_main. Qed.
+
+Theorem C12_fine_kernel_lowbank_is_lumped_without_reach_local :
+  forall (bff vf fpa lw ll ls bh pbh sbd mn vs vr dt c m : R) (a b l v q : list R),
+  bff <= 1 / 100000000 ->
+  @instream_fine_sediment_kernel R RArith [bff; vf; fpa; lw; ll; ls; bh; pbh; sbd; mn; vs; vr; dt] [c; m] [a; b; l; v; q] =
+  let r := run (@lumped_step R RArith 0 dt) m (lumped_rows a (Some b) q v) in
+  Some ([map lo_outflowLoad (snd r); zeros (snd r); zeros (snd r); zeros (snd r); zeros (snd r)], [c; fst r]).
+Proof. exact fine_kernel_unfold_lowbank. Qed.
+
+Theorem C12_coarse_kernel_is_run : forall (dt c m : R) (a b d : list R),
+  @instream_coarse_sediment_kernel R RArith [dt] [c; m] [a; b; d] =
+  let r := run (@coarse_step R RArith dt) (c, m) (zip3 a b d) in
+  Some ([snd r], [fst (fst r); snd (fst r)]).
+Proof. exact coarse_kernel_unfold. Qed.
+
+Theorem C12_particulate_kernel_is_run : forall (pnc spf dt i c : R) (a b c0 d e f g h : list R),
+  @instream_particulate_nutrient_kernel R RArith [pnc; spf; dt] [i; c] [a; b; c0; d; e; f; g; h] =
+  let r := run (@pn_step R RArith pnc spf dt) (i, c) (pn_rows a b c0 d e f g h) in
+  Some ([map po_loadDeposited (snd r); map po_loadFromStreambank (snd r); map po_loadDownstream (snd r);
+         map po_loadToFloodplain (snd r)], [fst (fst r); snd (fst r)]).
+Proof. exact pn_kernel_unfold. Qed.
+
+Theorem C12_trapping_kernel_is_run : forall (dt cap len sub mult ldf ldp s : R) (a b c d : list R),
+  @storage_particulate_trapping_kernel R RArith [dt; cap; len; sub; mult; ldf; ldp] [s] [a; b; c; d] =
+  let p := mk_trap_params dt cap len sub mult ldf ldp in
+  let r := run (@trap_step R RArith p) s (trap_rows a b c d) in
+  Some ([map to_trappedMass (snd r); map to_outflowLoad (snd r)], [fst r]).
+Proof. exact trap_kernel_unfold. Qed.
+
+Theorem C12_trapall_kernel_is_run : forall (m0 x : R) (r b c d : list R),
+  @storage_trap_all_kernel R RArith [] [m0] [x :: r; b; c; d] =
+  let rr := run (@trapall_step R RArith) (Some m0) (x :: r) in
+  Some ([snd rr; zeros (snd rr)], [0]).
+Proof. exact trapall_kernel_unfold. Qed.
+
+Theorem C12_dissolved_kernel_nodecay_is_lumped : forall (dt flag ari bff mfrt s : R) (a b c d : list R),
+  flag < 1 / 2 ->
+  @storage_dissolved_decay_kernel R RArith [dt; flag; ari; bff; mfrt] [s] [a; b; c; d] =
+  let r := @dissolved_nodecay R RArith a c d s dt in
+  Some ([zeros (snd r); map lo_outflowLoad (snd r)], [fst r]).
+Proof. exact dissolved_kernel_unfold. Qed.
+
+(** InstreamDissolvedNutrientDecay with decay disabled is the lumped routing with the annual
+    point-source load as point input (kg/s): theorems of section 1 apply to it *)
+Theorem C12_dissolved_nutrient_nodecay_is_lumped : forall (flag psl lh lw ll uv dt s : R) (up lat vol q fpf : list R),
+  flag < 1 / 2 -> vol <> [] ->
+  @instream_dissolved_nutrient_decay_kernel R RArith [flag; psl; lh; lw; ll; uv; dt] [s] [up; lat; vol; q; fpf] =
+  let r := run (@lumped_step R RArith (psl / 31557600) dt) s (lumped_rows up (Some lat) q vol) in
+  Some ([zeros (snd r); map lo_outflowLoad (snd r); zeros (snd r); map lo_pointSourceLoad (snd r)], [fst r]).
+Proof. exact dn_kernel_nodecay_is_lumped. Qed.
+
+Theorem C12_dissolved_nutrient_nodecay_budget : forall (psl dt s : R) (up lat vol q : list R),
+  let p := psl / 31557600 in
+  let rows := @lumped_rows R RArith up (Some lat) q vol in
+  s + inflows (lumped_inflow p dt) rows =
+  fst (run (@lumped_step R RArith p dt) s rows) +
+  outflows (lumped_outflow dt) rows (snd (run (@lumped_step R RArith p dt) s rows)).
+Proof. exact dn_nodecay_budget. Qed.
+Print Assumptions C12_dissolved_nutrient_nodecay_budget.
+
+(** * 11. Observations outside the statement of C12 (recorded, not counted as violations) *)
+(** the particulate-nutrient BED store (not the in-stream store) can be driven negative by a
+    resuspension signal; C12's remobilisation clause is about the fine-sediment store *)
+Theorem C12_observation_particulate_bed_store_can_go_negative :
+  exists x : @pn_in R, pn_in_nonneg x /\ snd (fst (@pn_step R RArith 0 0 1 (100, 0) x)) < 0.
+Proof. exact pn_channel_store_can_go_negative. Qed.
+
+(** on a flushed step the output loadDeposited stays 0 although the bed store changed *)
+Theorem C12_observation_particulate_deposit_unreported_on_flushed_step :
+  exists x : @pn_in R, pn_in_nonneg x /\
+    po_loadDeposited (snd (@pn_step R RArith 0 0 1 (100, 0) x)) = 0 /\
+    po_bedExchange (snd (@pn_step R RArith 0 0 1 (100, 0) x)) = 50.
+Proof. exact pn_deposit_unreported_on_flushed_step. Qed.
+
+(** * 12. Non-vacuity *)
+Example C12_fine_deposition_example :
+  let r := @fine_step R RArith (fine_unit_params 1) (0, 0) (mk_fine_in 5 0 0 1 0) in
+  fst r = (5, 0) /\ fo_loadToChannelDeposition (snd r) = 5 /\ fo_loadDownstream (snd r) = 0 /\
+  fo_floodplainDeposit (snd r) = 0 /\ fo_flushed (snd r) = 0.
+Proof. exact fine_deposition_example. Qed.
+
+Example C12_fine_remobilisation_example :
+  let r := @fine_step R RArith (fine_unit_params 2) (5, 0) (mk_fine_in 0 0 0 1 1) in
+  fst r = (0, 5 / 2) /\ fo_loadToChannelDeposition (snd r) = - 5 /\ fo_loadDownstream (snd r) = 5 / 2 /\
+  fo_channelStoreBefore (snd r) = 5 /\ fo_flushed (snd r) = 0.
+Proof. exact fine_remobilisation_example. Qed.
+
+Example C12_particulate_deposition_example :
+  let r := @pn_step R RArith 0 0 1 (100, 0) (mk_pn_in 0 0 1 1 0 0 0 (1 / 2)) in
+  fst r = (25, 50) /\ po_loadDownstream (snd r) = 25 /\ po_loadDeposited (snd r) = 50 /\ po_flushed (snd r) = 0.
+Proof. exact pn_deposition_example. Qed.
+
 Example C12_lumped_flush_example :
   @lumped_step R RArith 0 1 3 (mk_lumped_in 0 0 0 0) =
   (0, {| lo_outflowLoad := 0; lo_pointSourceLoad := 0; lo_flushed := 3 |}).
